@@ -11,10 +11,103 @@ import (
 )
 
 // how a mapper fills one attribute-value field: from a fresh copy, or by sharing memory with its argument
+// SDK helpers returning a fresh value (aws.String, aws.ToString, aws.StringValue: trusted by name) and the mappers
+// themselves (recursive: their fields are what this table is about)
 var freshCallees = map[string]bool{
-	"cloneBytes": true, "cloneBool": true, "cloneString": true, "cloneStrings": true, "cloneByteSlices": true,
-	"ToString": true, "toStringSlice": true, "toStringValueSlice": true, "StringValue": true,
+	"ToString": true, "StringValue": true, "String": true,
 	"mapAttributeValueToTypes": true, "mapAttributeValueListToTypes": true, "mapAttributeValueToDynamodb": true, "mapAttributeValueListToDynamodb": true,
+}
+
+// helpers of the mapper file (cloneString, cloneStrings, toStringSlice, ...) are not trusted by name: their bodies are
+// checked. A helper is fresh when every value it returns is nil, the address of a local, a call of a fresh function,
+// or a local container made in the function (make / composite literal) that is only ever filled with fresh values.
+var helperFresh = map[string]bool{}
+
+func checkHelpers(f *ast.File, sdk string) {
+	for k := range helperFresh {
+		delete(helperFresh, k)
+	}
+	cands := map[string]*ast.FuncDecl{}
+	for _, d := range f.Decls {
+		fd, ok := d.(*ast.FuncDecl)
+		if !ok || fd.Recv != nil || fd.Body == nil {
+			continue
+		}
+		if strings.HasPrefix(fd.Name.Name, "clone") || strings.HasPrefix(fd.Name.Name, "toString") {
+			cands[fd.Name.Name] = fd
+		}
+	}
+	// optimistic fixpoint: assume all fresh, drop those whose body does not check, until stable
+	for n := range cands {
+		helperFresh[n] = true
+	}
+	for changed := true; changed; {
+		changed = false
+		for n, fd := range cands {
+			if helperFresh[n] && !helperBodyFresh(fd) {
+				delete(helperFresh, n)
+				changed = true
+			}
+		}
+	}
+}
+
+func helperBodyFresh(fd *ast.FuncDecl) bool {
+	locals := localNames(fd)
+	made := map[string]bool{} // locals bound to a container made here
+	ok := true
+	freshExpr := func(e ast.Expr) bool {
+		if id, isID := e.(*ast.Ident); isID && (id.Name == "nil" || made[id.Name]) {
+			return true
+		}
+		if ce, isCall := e.(*ast.CallExpr); isCall {
+			if id, isID := ce.Fun.(*ast.Ident); isID && id.Name == "append" && len(ce.Args) == 2 {
+				a, isA := ce.Args[0].(*ast.Ident)
+				return isA && made[a.Name] && classify(ce.Args[1], locals) == "false"
+			}
+		}
+		if _, isID := e.(*ast.Ident); isID {
+			return false // a parameter, or a local that is not a container made here
+		}
+		return classify(e, locals) == "false"
+	}
+	ast.Inspect(fd.Body, func(n ast.Node) bool {
+		switch x := n.(type) {
+		case *ast.AssignStmt:
+			for i, l := range x.Lhs {
+				if i >= len(x.Rhs) {
+					continue
+				}
+				switch lv := l.(type) {
+				case *ast.Ident:
+					if x.Tok == token.DEFINE {
+						switch r := x.Rhs[i].(type) {
+						case *ast.CompositeLit:
+							made[lv.Name] = len(r.Elts) == 0
+						case *ast.CallExpr:
+							if id, isID := r.Fun.(*ast.Ident); isID && id.Name == "make" {
+								made[lv.Name] = true
+							}
+						}
+					} else if made[lv.Name] && !freshExpr(x.Rhs[i]) {
+						ok = false
+					}
+				case *ast.IndexExpr:
+					if id, isID := lv.X.(*ast.Ident); isID && made[id.Name] && classify(x.Rhs[i], locals) != "false" {
+						ok = false
+					}
+				}
+			}
+		case *ast.ReturnStmt:
+			for _, r := range x.Results {
+				if !freshExpr(r) {
+					ok = false
+				}
+			}
+		}
+		return true
+	})
+	return ok
 }
 
 func classify(e ast.Expr, locals map[string]bool) string {
@@ -27,7 +120,7 @@ func classify(e ast.Expr, locals map[string]bool) string {
 		case *ast.SelectorExpr:
 			name = f.Sel.Name
 		}
-		if freshCallees[name] {
+		if freshCallees[name] || helperFresh[name] {
 			return "false"
 		}
 		return "UNKNOWN:" + name
@@ -146,8 +239,10 @@ func writeCopies(repo, out string) {
 	v1 := parseFile(filepath.Join(repo, "aws-v1", "client", "mapper.go"))
 	v2 := parseFile(filepath.Join(repo, "aws-v2", "client", "mapper.go"))
 	entries := []string{}
+	checkHelpers(v1, "v1")
 	entries = append(entries, copyEntries(v1, []string{"mapAttributeValueToTypes", "mapAttributeValueListToTypes"}, "v1", "in")...)
 	entries = append(entries, copyEntries(v1, []string{"mapAttributeValueToDynamodb", "mapAttributeValueListToDynamodb"}, "v1", "out")...)
+	checkHelpers(v2, "v2")
 	entries = append(entries, copyEntries(v2, []string{"mapDynamoToTypesItem", "mapDynamoToTypesAttributeDefinitionMapOrList"}, "v2", "in")...)
 	entries = append(entries, copyEntries(v2, []string{"mapTypesToDynamoItem", "mapTypesToDynamoAttributeDefinitionMapOrList"}, "v2", "out")...)
 	b.WriteString("(* sdk, direction (in: request -> stored, out: stored -> response), attribute-value kind, shares memory with its argument *)\n")
